@@ -1,0 +1,16 @@
+//! Verification hooks (compiled only with `--cfg bs_verif`).
+use std::sync::OnceLock;
+
+type PointFn = Box<dyn Fn(&'static str) + Send + Sync>;
+static POINT: OnceLock<PointFn> = OnceLock::new();
+
+pub fn install_point(f: PointFn) {
+    let _ = POINT.set(f);
+}
+
+#[inline]
+pub fn point(name: &'static str) {
+    if let Some(f) = POINT.get() {
+        f(name)
+    }
+}
